@@ -12,8 +12,8 @@ import (
 // C14 reward weight lifecycle: bounded, exact decay schedule, not retroactive.
 type monC14 struct{}
 
-func newMonC14() *monC14      { return &monC14{} }
-func (m *monC14) Name() string { return "C14" }
+func newMonC14() *monC14           { return &monC14{} }
+func (m *monC14) Name() string     { return "C14" }
 func (m *monC14) Finish(r *Runner) {}
 
 func powFloatAny(base *big.Float, n uint64) *big.Float {
